@@ -72,7 +72,7 @@ def build_jobs(spec, tier, known, solver):
                 "func": h["func"],
                 "ints": h.get("ints", "bv"),
                 "stubs": {qual(k): qual(v) for k, v in h.get("stubs", {}).items()},
-                "inits": [qual(x) for x in h.get("inits", [])],
+                "inits": [qual(x) for x in h.get("inits", spec.get("inits", []))],
                 "maxloop": h.get("maxloop_" + tier, h.get("maxloop", 0)),
                 "must_encode": [qual(x) for x in h.get("must_encode", [])],
                 "must_reach": h.get("must_reach", []),
